@@ -1,0 +1,40 @@
+//go:build verif
+
+package connectconformance
+
+// Contracts for the deductive verifier in /verif (comment-only file; no code).
+
+// What protoyaml can hand back ("parseable"): repeated message fields never hold nil
+// elements; singular message fields (request, expected_response, ...) may be nil.
+//@ elemvalues []*conformancev1.TestCase: v != nil
+//@ elemvalues []*anypb.Any: v != nil
+//@ elemvalues []*conformancev1.TestCase_ExpandedSize: v != nil
+//@ elemvalues []*conformancev1.Header: v != nil
+
+//@ func hasCodec
+//@   pure
+//@   ensures result == contains(codecs, target)
+//@   loop 0: invariant !containsUpTo(codecs, rangeindex + 1, target)
+
+//@ func unaryResponseDefiner.GetResponseDefinition
+//@   trusted
+//@   pure
+//@ func streamResponseDefiner.GetResponseDefinition
+//@   trusted
+//@   pure
+
+//@ func hasRawResponse
+//@   modifies nothing
+
+// Padding: on success every request with a size directive has serialized size exactly
+// server receive limit (200 KiB) + the requested offset; never a panic.
+//@ func expandRequestData
+//@   requires testCase != nil && testCase.Request != nil
+//@   requires forall i int, j int :: 0 <= i && i < j && j < len(testCase.Request.RequestMessages) ==> testCase.Request.RequestMessages[i] != testCase.Request.RequestMessages[j]
+//@   modifies pbPad, anySize, []byte
+//@   ensures @size result == nil ==> (forall i int :: 0 <= i && i < len(testCase.ExpandRequests) && testCase.ExpandRequests[i].SizeRelativeToLimit != nil ==>
+//@       i < len(testCase.Request.RequestMessages) && anySize[testCase.Request.RequestMessages[i]] == 204800 + *testCase.ExpandRequests[i].SizeRelativeToLimit)
+//@   loop 0: invariant len(testCase.ExpandRequests) <= len(testCase.Request.RequestMessages)
+//@           invariant forall i int :: 0 <= i && i <= rangeindex && testCase.ExpandRequests[i].SizeRelativeToLimit != nil ==>
+//@       anySize[testCase.Request.RequestMessages[i]] == 204800 + *testCase.ExpandRequests[i].SizeRelativeToLimit
+//@   loop 1: invariant 0 <= adjustCount && adjustCount <= 2 && pbPad[reflectReq] >= 0
